@@ -212,7 +212,8 @@ func c13Values() []namedVal {
 }
 
 var c13Labels = []rc.Val{rc.Int(1), rc.Int(2), rc.Int(3), rc.Int(4), rc.Int(5), rc.Int(6), rc.Int(7), rc.Int(9), rc.Int(11), rc.Int(12), rc.Int(15),
-	rc.Int(16), rc.Int(32), rc.Int(33), rc.Int(34), rc.Int(35), rc.Int(258), rc.Int(259), rc.Int(260), rc.Int(99), rc.Int(-99), rc.Int(8), rc.Int(10), rc.Text("x"), rc.Text("")}
+	rc.Int(16), rc.Int(32), rc.Int(33), rc.Int(34), rc.Int(35), rc.Int(258), rc.Int(259), rc.Int(260), rc.Int(99), rc.Int(-99), rc.Int(8), rc.Int(10), rc.Text("x"), rc.Text(""),
+	rc.Uint(1 << 63), rc.Uint(1<<64 - 1), rc.Uint(1<<64 - 2)} // the last three: beyond int64 (README: refused), reachable only as Go uint64 / uint
 
 var c13Ctxs = []string{"protected", "unprotected", "sign1", "untagged", "signature", "countersignature", "sign-body"}
 
@@ -236,8 +237,7 @@ func forEachSingleParamCell(spellings bool, run func(c c13Case), extra ...namedV
 							break
 						}
 						lab := l
-						if l.K == rc.KInt {
-							i, _ := l.Int64()
+						if i, ok := l.Int64(); l.K == rc.KInt && ok {
 							if sp != rc.SpInt64 && !bridge.SpellingFits(i, sp) {
 								continue
 							}
